@@ -481,6 +481,8 @@ BIN_OPS = {'add', 'sub', 'mul', 'udiv', 'sdiv', 'urem', 'srem', 'shl', 'lshr', '
 
 
 def parse_instr(line, mod):
+    if '@llvm.dbg.' in line:
+        return Instr('call', None, ty=('void',), ops=[('global', 'llvm.dbg.value')], extra={'args': []}, src='llvm.dbg')
     toks = tokenize(line)
     p = P(toks, line)
     res = None
